@@ -141,7 +141,7 @@ PROPS = {
         "design_ref": "DESIGN.md section 5, C08",
     },
     "C11": {
-        "modules": ["Qvnt.Props.C11"],
+        "modules": ["Qvnt.Props.C11", "Qvnt.Props.Code.C11"],
         "tie": [tie3(r"int_process_(apply_gate|gate|if|node|nodes|node_apply)_eq|int_(ast_changes|add_ast|new)_eq|processNode_inv|processApply_macros|foldlM_process|regsOf_eq|argsOf_eq|macro_process(_nested)?_eq|macro_argument_name_eq|macro_new_eq", r"UNSUPPORTED (mod\.rs: qasm/int/mod\.rs::(process_(apply_gate|gate|if|node|nodes)|ast_changes|add_ast|new):|macros\.rs)"), tiec(r"parse_\w+|sym_\w+"), tie(r"creg_(set|xor|reset|get)_eq|notW_eq", sources=r"UNSUPPORTED class\.rs"), tie2(r"creg_get_by_mask_eq|quant_(reset_by_mask|measure_mask|reset)_eq|bitsList_eq|sym_(finish|step|reset|new|get_class|get_probabilities)_eq|store_(set|xor)_eq|finish_as_foldlM|mstep_inv", r"UNSUPPORTED (quant\.rs: register/quant\.rs::(reset_by_mask|measure_mask|reset):|class\.rs|bits_iter\.rs|sym\.rs)", creg=True), tie2(r"extop_(push|append)_eq", r"UNSUPPORTED ext_op\.rs"), tie3(r"int_process_(measure|reset|barrier)_eq|int_branch(_with_id)?_eq|int_xor_eq|int_get_[qc]_idx_eq", r"UNSUPPORTED mod\.rs: qasm/int/mod\.rs::(process_(measure|reset|barrier)|branch|branch_with_id|xor|get_[qc]_idx_with_context|get_idx_by_alias):")],
         "suites": [suite("intnu", dict(count=600), dict(count=20000))],
         "mismatch_tags": INT_STRUCT,
@@ -168,7 +168,7 @@ PROPS = {
         "design_ref": "DESIGN.md section 5, C12",
     },
     "C17": {
-        "modules": ["Qvnt.Props.C17"],
+        "modules": ["Qvnt.Props.C17", "Qvnt.Props.Code.C18"],
         "tie": [tie3(r"int_process_(apply_gate|gate|if|node|nodes|node_apply)_eq|int_(ast_changes|add_ast|new)_eq|processNode_inv|processApply_macros|foldlM_process|regsOf_eq|argsOf_eq|macro_process(_nested)?_eq|macro_argument_name_eq|macro_new_eq", r"UNSUPPORTED (mod\.rs: qasm/int/mod\.rs::(process_(apply_gate|gate|if|node|nodes)|ast_changes|add_ast|new):|macros\.rs)"), tiec(r"sym_\w+"), tie2(r"extop_(push|append)_eq|sym_(finish|step|reset|new|get_class|get_probabilities)_eq|finish_as_foldlM", r"UNSUPPORTED (ext_op\.rs|sym\.rs)", creg=True), tie3(r"int_(append|prepend)_int_eq", r"UNSUPPORTED mod\.rs: qasm/int/mod\.rs::(append_int|prepend_int):")],
         "suites": [suite("c17", dict(count=300), dict(count=10000))],
         "mismatch_tags": INT_STRUCT,
@@ -181,7 +181,7 @@ PROPS = {
         "design_ref": "DESIGN.md section 5, C17 and Appendix B",
     },
     "C18": {
-        "modules": ["Qvnt.Props.C18"],
+        "modules": ["Qvnt.Props.C18", "Qvnt.Props.Code.C18"],
         "tie": [tie3(r"int_process_(apply_gate|gate|if|node|nodes|node_apply)_eq|int_(ast_changes|add_ast|new)_eq|processNode_inv|processApply_macros|foldlM_process|regsOf_eq|argsOf_eq|macro_process(_nested)?_eq|macro_argument_name_eq|macro_new_eq", r"UNSUPPORTED (mod\.rs: qasm/int/mod\.rs::(process_(apply_gate|gate|if|node|nodes)|ast_changes|add_ast|new):|macros\.rs)"), tie3(r"int_(append|prepend)_int_eq|int_process_(qreg|creg)_eq", r"UNSUPPORTED mod\.rs: qasm/int/mod\.rs::(append_int|prepend_int|process_(qreg|creg)):")],
         "suites": [suite("c18", dict(count=400), dict(count=12000))],
         "mismatch_tags": [r"iadd\.(result|summary|blocks?\d*|tail)", r"inew.*"],
@@ -223,7 +223,7 @@ PROPS = {
         "design_ref": "DESIGN.md section 5, C09",
     },
     "C10": {
-        "modules": ["Qvnt.Props.C10"],
+        "modules": ["Qvnt.Props.C10", "Qvnt.Props.Code.C11"],
         "tie": [tie3(r"int_process_(apply_gate|gate|if|node|nodes|node_apply)_eq|int_(ast_changes|add_ast|new)_eq|processNode_inv|processApply_macros|foldlM_process|regsOf_eq|argsOf_eq|macro_process(_nested)?_eq|macro_argument_name_eq|macro_new_eq", r"UNSUPPORTED (mod\.rs: qasm/int/mod\.rs::(process_(apply_gate|gate|if|node|nodes)|ast_changes|add_ast|new):|macros\.rs)"), tiec(r"parse_\w+"), tie2(r"extop_(push|append)_eq|sym_(finish|step|reset|new|get_class|get_probabilities)_eq|finish_as_foldlM", r"UNSUPPORTED (ext_op\.rs|sym\.rs)", creg=True), tie3(r"int_get_[qc]_idx_eq|fold_idx_eq|int_branch(_with_id)?_eq|int_process_(qreg|creg|barrier|opaque)_eq", r"UNSUPPORTED mod\.rs: qasm/int/mod\.rs::(get_idx_by_alias|get_[qc]_idx_with_context|branch|branch_with_id|process_(qreg|creg|barrier|opaque)):")],
         "suites": [suite("int", dict(count=500), dict(count=15000)), suite("c10e", dict(count=300), dict(count=6000)),
                    suite("c10f", dict(count=400), dict(count=12000))],
@@ -263,7 +263,7 @@ PROPS = {
         "design_ref": "DESIGN.md section 5, C15 and Appendix A",
     },
     "C14": {
-        "modules": ["Qvnt.Props.C14"],
+        "modules": ["Qvnt.Props.C14", "Qvnt.Props.Code.C14"],
         "tie": [tie(r"creg_(tensor_prod|with_state|set_num|mask_of|num)_eq", sources=r"UNSUPPORTED class\.rs"), tie2(r"quant_(new|with_state|set_num|reset|tensor_prod|get_probabilities)_eq|creg_(mul|mul_assign|new)_eq", r"UNSUPPORTED (quant\.rs: register/quant\.rs::(new|with_state|set_num|reset|tensor_prod|get_probabilities):|class\.rs)", creg=True)],
         "suites": [suite("reg", dict(count=500, max_n=6), dict(count=10000, max_n=9))],
         "mismatch_tags": [r"qobs.*", r"tensor.*", r"setnum.*", r"probs", r"polar", r"qvreg", r"creg", r"ctensor", r"cmulassign", r"qstate", r"q2state", r"q2reg"],
@@ -289,7 +289,7 @@ PROPS = {
         "design_ref": "DESIGN.md section 5, C16",
     },
     "C20": {
-        "modules": ["Qvnt.Props.C20"],
+        "modules": ["Qvnt.Props.C20", "Qvnt.Props.Code.C20"],
         "tie": [tie(r"creg_.*_eq|notW_eq", sources=r"UNSUPPORTED class\.rs"), tie2(r"bits_(from|next)_eq|bitsCollect_eq|bitsList_eq|creg_(get_by_mask|mul|mul_assign|new|fmt)_eq|h_(loop|h)_eq|vreg_\w+_eq|quant_get_vreg(_by)?_eq", r"UNSUPPORTED (bits_iter\.rs|class\.rs|h\.rs|virtl\.rs|quant\.rs: register/quant\.rs::get_vreg)", creg=True)],
         "suites": [
             suite("bits", dict(count=500, timeout=60), dict(count=20000, timeout=600)),
@@ -320,7 +320,7 @@ PROPS = {
         "design_ref": "DESIGN.md section 5, C01",
     },
     "C02": {
-        "modules": ["Qvnt.Props.C02"],
+        "modules": ["Qvnt.Props.C02", "Qvnt.Props.Code.C02"],
         "tie": [tie(r"forEach_eq|ctrlTest_iff|.*_actsOn_eq", sources=r"UNSUPPORTED dispatch\.rs: dispatch\.rs::for_each:"), tie2(r"single_(c|act_on)_eq|multi_(c|act_on)_eq", r"UNSUPPORTED mod\.rs: operator/(single|multi)/mod\.rs::(c|act_on):")],
         "suites": [suite("c02", dict(count=800, max_n=5), dict(count=20000, max_n=8))],
         "mismatch_tags": [r"op", r"metactrl", r"metactrl\.acton"],
@@ -333,7 +333,7 @@ PROPS = {
         "design_ref": "DESIGN.md section 5, C02",
     },
     "C03": {
-        "modules": ["Qvnt.Props.C03"],
+        "modules": ["Qvnt.Props.C03", "Qvnt.Props.Code.C03"],
         "tie": [tie(r".*_(dgr|op)_eq|rotate_eq|negWord_eq", sources=r"UNSUPPORTED (\w+\.rs: \w+\.rs::(atomic_op|dgr|this|struct)|math/mod\.rs)"), tie2(r"single_dgr_eq|multi_dgr_eq|multi_matrix_eq|matrixArr_eq_matrix", r"UNSUPPORTED (mod\.rs: operator/(single|multi)/mod\.rs::dgr|applicable\.rs)")],
         "suites": [suite("c03", dict(count=800, max_n=5), dict(count=20000, max_n=8))],
         "mismatch_tags": [r"op", r"metadgr", r"metadgr\.(names|acton)"],
@@ -346,7 +346,7 @@ PROPS = {
         "design_ref": "DESIGN.md section 5, C03",
     },
     "C04": {
-        "modules": ["Qvnt.Props.C04"],
+        "modules": ["Qvnt.Props.C04", "Qvnt.Props.Code.C04"],
         "tie": [tie2(r"multi_(apply|mul_assign)_eq|single_apply_eq|quant_apply_eq", r"UNSUPPORTED (mod\.rs: operator/(single|multi)/mod\.rs::(apply|mul_assign):|quant\.rs: register/quant\.rs::apply:)")],
         "suites": [
             suite("c04", dict(count=600, max_n=5), dict(count=6000, max_n=8, long=1)),
